@@ -91,9 +91,11 @@ def scenarios(ctx):
             p["initial_active"] = min(p.get("initial_active", 0), 13)
         out.append(spec)
     out.append({"kind": "shipped", "name": "hard_disk_dipoles/single_hard_disk_dipole", "end": 60.0})
+    # 81 dipoles read from 3-decimal .pdb coordinates: exact ties between a dipole-bond and a sphere candidate occur within
+    # the first 20 log entries (regression scenario of the repaired defect C20:tied-candidates-committed-in-arrival-order)
+    out.append({"kind": "shipped", "name": "hard_disk_dipoles/hard_disk_dipoles_cells", "end": ctx.pick(2.0, 8.0)})
     if not ctx.quick:
         out.append({"kind": "shipped", "name": "hard_disk_dipoles/hard_disk_dipoles", "end": 8.0})
-        out.append({"kind": "shipped", "name": "hard_disk_dipoles/hard_disk_dipoles_cells", "end": 8.0})
     return out
 
 
